@@ -1,6 +1,1144 @@
-//! C17 — not built yet.
-use vcommon::Args;
+//! C17 — the client-side handshake succeeds only on a proper server acceptance.
+//!
+//! The real client handshake (`connection::Builder::socket(..)[.p2p()].build()`) runs against a
+//! scripted server: every sequence of server lines over an alphabet on which the client is still
+//! waiting for input is extended (history tree, no merging), each node is combined with every
+//! expected-GUID / fd-capability / mechanism configuration, with p2p and bus flavours (Hello
+//! reply: return / error / signal first), with every kind of trailing bytes, and with read splits.
+//! Oracle: the wire monitor of `refsasl::client_verdict` (acceptance, fd agreement, which bytes
+//! are handshake lines), and the trailing bytes/fds must come out of a `MessageStream` first and
+//! intact.
 
-pub fn main(_args: &Args) -> i32 {
-    vcommon::machinery_failure("C17: check not built yet")
+use std::{
+    collections::{BTreeMap, BTreeSet},
+    os::fd::{AsRawFd, OwnedFd},
+    sync::{Arc, Mutex},
+};
+
+use futures_lite::StreamExt;
+use serde_json::{json, Value};
+use vcommon::{catch, hash64, par_for, Args, Report, Violation};
+use zbus::{connection::Builder, zvariant::Fd, AuthMechanism, Connection, Message, MessageStream};
+
+use crate::{
+    refsasl::{client_verdict, parse_client_stream, parse_server_line, ClientCmd, Mech, ServerLine, CRLF},
+    world::{inode_of, new_fd, Link, SockCfg, World, GUID},
+};
+
+const OTHER_GUID: &str = "fedcba9876543210fedcba9876543210";
+const THIRD_GUID: &str = "00112233445566778899aabbccddeeff";
+const HYPHEN_GUID: &str = "01234567-89ab-cdef-0123-456789abcdef";
+
+const CL_ACCEPT: &str = "completes-only-on-ok-with-valid-expected-guid";
+const CL_PROPER: &str = "proper-acceptance-completes";
+const CL_FD: &str = "fd-capability-iff-server-agreed";
+const CL_TRAIL: &str = "trailing-bytes-and-fds-delivered-first-and-intact";
+const CL_PANIC: &str = "no-panic";
+const CL_SPLIT: &str = "result-independent-of-read-splitting";
+
+#[derive(Clone, Copy, Debug, PartialEq, Eq, Hash, PartialOrd, Ord)]
+enum Expect {
+    None,
+    Equal,
+    Different,
+}
+
+#[derive(Clone, Copy, Debug, PartialEq, Eq, Hash, PartialOrd, Ord)]
+enum Mode {
+    P2p,
+    BusReturn,
+    BusError,
+    BusSignalFirst,
+}
+
+#[derive(Clone, Copy, Debug, PartialEq, Eq, Hash, PartialOrd, Ord)]
+enum Trailing {
+    None,
+    One,
+    OneAndHalf,
+    WithFd,
+    /// An fd-less message followed by a message carrying an fd.
+    PlainThenFd,
+}
+
+const MODES: [Mode; 4] = [Mode::P2p, Mode::BusReturn, Mode::BusError, Mode::BusSignalFirst];
+const TRAILINGS: [Trailing; 5] = [
+    Trailing::None,
+    Trailing::One,
+    Trailing::OneAndHalf,
+    Trailing::WithFd,
+    Trailing::PlainThenFd,
+];
+
+#[derive(Clone, Copy, Debug, PartialEq, Eq, Hash)]
+struct Cfg {
+    expect: Expect,
+    fd: bool,
+    mech: Mech,
+}
+
+impl Cfg {
+    fn expected_guid(&self) -> Option<&'static str> {
+        match self.expect {
+            Expect::None => None,
+            Expect::Equal => Some(GUID),
+            Expect::Different => Some(THIRD_GUID),
+        }
+    }
+    fn json(&self) -> Value {
+        json!({"expect": format!("{:?}", self.expect), "fd": self.fd, "mech": self.mech.name()})
+    }
+    fn from_json(v: &Value) -> Cfg {
+        Cfg {
+            expect: match v["expect"].as_str() {
+                Some("Equal") => Expect::Equal,
+                Some("Different") => Expect::Different,
+                _ => Expect::None,
+            },
+            fd: v["fd"].as_bool().unwrap_or(true),
+            mech: Mech::parse(v["mech"].as_str().unwrap_or("EXTERNAL")).unwrap_or(Mech::External),
+        }
+    }
+}
+
+fn mode_from(s: &str) -> Mode {
+    match s {
+        "BusReturn" => Mode::BusReturn,
+        "BusError" => Mode::BusError,
+        "BusSignalFirst" => Mode::BusSignalFirst,
+        _ => Mode::P2p,
+    }
+}
+fn trailing_from(s: &str) -> Trailing {
+    match s {
+        "One" => Trailing::One,
+        "OneAndHalf" => Trailing::OneAndHalf,
+        "WithFd" => Trailing::WithFd,
+        "PlainThenFd" => Trailing::PlainThenFd,
+        _ => Trailing::None,
+    }
+}
+
+/// Server line alphabet (raw bytes with terminator) and a class name per symbol.
+fn alphabet(thorough: bool) -> Vec<(Vec<u8>, &'static str)> {
+    let mut a: Vec<(String, &'static str)> = vec![
+        (format!("OK {GUID}\r\n"), "ok-guid"),
+        (format!("OK {OTHER_GUID}\r\n"), "ok-other-guid"),
+        (format!("OK {}\r\n", &GUID[..31]), "ok-31-hex"),
+        ("OK\r\n".into(), "ok-no-guid"),
+        (format!("OK {HYPHEN_GUID}\r\n"), "ok-hyphenated-guid"),
+        ("REJECTED EXTERNAL\r\n".into(), "rejected"),
+        ("REJECTED\r\n".into(), "rejected"),
+        ("ERROR\r\n".into(), "error"),
+        ("DATA\r\n".into(), "data"),
+        ("AGREE_UNIX_FD\r\n".into(), "agree-unix-fd"),
+        ("FOO\r\n".into(), "unknown-line"),
+        ("\r\n".into(), "empty-line"),
+        ("\n".into(), "bare-lf-empty-line"),
+        (format!("OK {GUID}\n"), "bare-lf-line"),
+    ];
+    if thorough {
+        a.extend([
+            (format!("OK {}\r\n", GUID.to_uppercase()), "ok-uppercase-guid"),
+            (format!("OK {GUID} x\r\n"), "ok-guid-extra-arg"),
+            (format!("OK {}\r\n", &GUID[..30].to_string().replace('0', "g")), "ok-non-hex"),
+            (format!("OK {{{HYPHEN_GUID}}}\r\n"), "ok-braced-guid"),
+            ("REJECTED ANONYMOUS EXTERNAL\r\n".into(), "rejected"),
+            ("ERROR \"no\"\r\n".into(), "error"),
+            ("DATA 00\r\n".into(), "data"),
+            ("AGREE_UNIX_FD x\r\n".into(), "agree-extra-arg"),
+            ("BEGIN\r\n".into(), "unknown-line"),
+            (" \r\n".into(), "empty-line"),
+            ("\r\r\n".into(), "stray-cr-line"),
+        ]);
+    }
+    a.into_iter().map(|(s, c)| (s.into_bytes(), c)).collect()
+}
+
+/// Messages a scripted server sends after its handshake lines, built once.
+struct Bank {
+    hello_return: Vec<u8>,
+    hello_error: Vec<u8>,
+    signal_first: Vec<u8>,
+    m1: Vec<u8>,
+    m2: Vec<u8>,
+    mfd: Vec<u8>,
+    /// The descriptor that travels with `mfd` (dup'ed per execution).
+    fd: OwnedFd,
+    fd_inode: u64,
+}
+
+fn serial(n: u32) -> std::num::NonZeroU32 {
+    std::num::NonZeroU32::new(n).unwrap()
+}
+
+fn build_bank() -> Bank {
+    // The client's Hello is the first message of its process-private serial counter: serial 1.
+    let hello = Message::method_call("/org/freedesktop/DBus", "Hello")
+        .unwrap()
+        .destination("org.freedesktop.DBus")
+        .unwrap()
+        .interface("org.freedesktop.DBus")
+        .unwrap()
+        .serial(serial(1))
+        .build(&())
+        .unwrap();
+    let hdr = hello.header();
+    let hello_return = Message::method_return(&hdr)
+        .unwrap()
+        .sender("org.freedesktop.DBus")
+        .unwrap()
+        .serial(serial(101))
+        .build(&(":1.42"))
+        .unwrap();
+    let hello_error = Message::error(&hdr, "org.freedesktop.DBus.Error.LimitsExceeded")
+        .unwrap()
+        .sender("org.freedesktop.DBus")
+        .unwrap()
+        .serial(serial(101))
+        .build(&("too many connections"))
+        .unwrap();
+    let signal_first = Message::signal("/org/freedesktop/DBus", "org.freedesktop.DBus", "NameAcquired")
+        .unwrap()
+        .sender("org.freedesktop.DBus")
+        .unwrap()
+        .serial(serial(100))
+        .build(&(":1.42"))
+        .unwrap();
+    let m1 = Message::signal("/t", "x.y.T", "One")
+        .unwrap()
+        .serial(serial(102))
+        .build(&(7u32, "trailing one"))
+        .unwrap();
+    let m2 = Message::signal("/t", "x.y.T", "Two")
+        .unwrap()
+        .serial(serial(103))
+        .build(&(8u32, "trailing two, a little longer than the first"))
+        .unwrap();
+    let fd = new_fd("c17-trailing");
+    let mfd = Message::signal("/t", "x.y.T", "WithFd")
+        .unwrap()
+        .serial(serial(104))
+        .build(&(Fd::from(&fd),))
+        .unwrap();
+    let b = |m: &Message| m.data().bytes().to_vec();
+    let fd_inode = inode_of(&fd);
+    Bank {
+        hello_return: b(&hello_return),
+        hello_error: b(&hello_error),
+        signal_first: b(&signal_first),
+        m1: b(&m1),
+        m2: b(&m2),
+        mfd: b(&mfd),
+        fd,
+        fd_inode,
+    }
+}
+
+/// The server's byte stream for one case.
+struct Script {
+    /// Everything sent up front.
+    bytes: Vec<u8>,
+    /// Length of the handshake-line region.
+    lines_len: usize,
+    /// Offset at which a descriptor is attached (first byte of the fd message).
+    fd_at: Option<usize>,
+    /// Bytes sent later (second half of the 1½ case).
+    late: Vec<u8>,
+    /// Start offsets and lengths of the messages in `bytes` (for the reduced 2-cut positions).
+    msgs: Vec<(usize, usize)>,
+    /// The trailing messages the stream has to yield, in order: (bytes, carries fd).
+    expect_items: Vec<(Vec<u8>, bool)>,
+    /// Messages that have to be there before `late` is sent.
+    expect_before_late: usize,
+}
+
+fn script(bank: &Bank, lines: &[&[u8]], mode: Mode, trailing: Trailing) -> Script {
+    let mut bytes: Vec<u8> = lines.concat();
+    let lines_len = bytes.len();
+    let mut msgs = vec![];
+    let mut push = |bytes: &mut Vec<u8>, m: &[u8]| {
+        msgs.push((bytes.len(), m.len()));
+        bytes.extend_from_slice(m);
+    };
+    match mode {
+        Mode::P2p => {}
+        Mode::BusReturn => push(&mut bytes, &bank.hello_return),
+        Mode::BusError => push(&mut bytes, &bank.hello_error),
+        Mode::BusSignalFirst => {
+            push(&mut bytes, &bank.signal_first);
+            push(&mut bytes, &bank.hello_return);
+        }
+    }
+    let mut fd_at = None;
+    let mut late = vec![];
+    let mut expect_items = vec![];
+    let mut expect_before_late = 0;
+    match trailing {
+        Trailing::None => {}
+        Trailing::One => {
+            push(&mut bytes, &bank.m1);
+            expect_items.push((bank.m1.clone(), false));
+            expect_before_late = 1;
+        }
+        Trailing::OneAndHalf => {
+            push(&mut bytes, &bank.m1);
+            let half = bank.m2.len() / 2;
+            bytes.extend_from_slice(&bank.m2[..half]);
+            late = bank.m2[half..].to_vec();
+            expect_items.push((bank.m1.clone(), false));
+            expect_items.push((bank.m2.clone(), false));
+            expect_before_late = 1;
+        }
+        Trailing::WithFd => {
+            fd_at = Some(bytes.len());
+            push(&mut bytes, &bank.mfd);
+            expect_items.push((bank.mfd.clone(), true));
+            expect_before_late = 1;
+        }
+        Trailing::PlainThenFd => {
+            push(&mut bytes, &bank.m1);
+            fd_at = Some(bytes.len());
+            push(&mut bytes, &bank.mfd);
+            expect_items.push((bank.m1.clone(), false));
+            expect_items.push((bank.mfd.clone(), true));
+            expect_before_late = 2;
+        }
+    }
+    Script {
+        bytes,
+        lines_len,
+        fd_at,
+        late,
+        msgs,
+        expect_items,
+        expect_before_late,
+    }
+}
+
+#[derive(Clone, Debug, PartialEq, Eq)]
+enum Status {
+    Waiting,
+    Completed,
+    Failed(String),
+    Panic(String),
+}
+
+impl Status {
+    fn class(&self) -> &'static str {
+        match self {
+            Status::Waiting => "waiting",
+            Status::Completed => "completed",
+            Status::Failed(_) => "failed",
+            Status::Panic(_) => "panic",
+        }
+    }
+}
+
+#[derive(Clone, Debug, PartialEq, Eq)]
+enum Item {
+    Msg { bytes: Vec<u8>, fds: Vec<u64> },
+    Err(String),
+}
+
+#[derive(Clone, Debug, PartialEq, Eq)]
+struct Obs {
+    status: Status,
+    /// `Some(true)` = an fd-carrying message could be sent, `Some(false)` = `Unsupported`.
+    cap: Option<Result<bool, String>>,
+    /// What the message stream yielded before / after the late bytes.
+    items_before_late: Vec<Item>,
+    items: Vec<Item>,
+    /// What the client wrote during the handshake (before the probe message).
+    client_wrote: Vec<u8>,
+}
+
+/// How the server's bytes reach the client.
+#[derive(Clone, Debug)]
+enum Delivery {
+    /// One chunk per handshake line, each delivered after the client went quiet; then the rest.
+    Reactive,
+    /// The whole stream cut at these positions, every chunk followed by a run to quiescence.
+    /// `glue_fd`: do not force a chunk boundary in front of the fd-carrying message.
+    Cuts { cuts: Vec<usize>, glue_fd: bool },
+}
+
+fn execute(cfg: &Cfg, bank: &Bank, lines: &[&[u8]], mode: Mode, trailing: Trailing, delivery: &Delivery) -> Obs {
+    let sc = script(bank, lines, mode, trailing);
+    let mut w = World::new();
+    let link = Link::new();
+    let mechanism = match cfg.mech {
+        Mech::External => AuthMechanism::External,
+        Mech::Anonymous => AuthMechanism::Anonymous,
+    };
+    let sock = link.end_a(SockCfg {
+        uid: Some(1000),
+        can_pass_fd: cfg.fd,
+        mechanism,
+    });
+    let result: Arc<Mutex<Option<Result<Connection, String>>>> = Arc::new(Mutex::new(None));
+    let items: Arc<Mutex<Vec<Item>>> = Arc::new(Mutex::new(vec![]));
+    let (r2, i2) = (result.clone(), items.clone());
+    let expected = cfg.expected_guid().map(|g| zbus::OwnedGuid::from(zbus::Guid::try_from(g).unwrap()));
+    let p2p = mode == Mode::P2p;
+    let mut root = w.spawn("client", async move {
+        let mut b = Builder::socket(sock);
+        if p2p {
+            b = b.p2p();
+        }
+        if let Some(g) = expected {
+            b = b.verif_expected_server_guid(g);
+        }
+        match b.internal_executor(false).build().await {
+            Err(e) => *r2.lock().unwrap() = Some(Err(e.to_string())),
+            Ok(conn) => {
+                // Subscribe before the socket reader task gets to run.
+                let mut stream = MessageStream::from(&conn);
+                *r2.lock().unwrap() = Some(Ok(conn));
+                while let Some(it) = stream.next().await {
+                    let it = match it {
+                        Ok(m) => Item::Msg {
+                            bytes: m.data().bytes().to_vec(),
+                            fds: m.data().fds().iter().map(|f| inode_of(&f.as_raw_fd())).collect(),
+                        },
+                        Err(e) => Item::Err(e.to_string()),
+                    };
+                    i2.lock().unwrap().push(it);
+                }
+            }
+        }
+    });
+
+    // chunk boundaries
+    let total = sc.bytes.len();
+    let mut bounds: Vec<usize> = match delivery {
+        Delivery::Reactive => {
+            let mut v = vec![];
+            let mut p = 0;
+            for l in lines {
+                p += l.len();
+                v.push(p);
+            }
+            v
+        }
+        Delivery::Cuts { cuts, .. } => cuts.clone(),
+    };
+    let glue = matches!(delivery, Delivery::Cuts { glue_fd: true, .. });
+    if let Some(at) = sc.fd_at {
+        // A descriptor travels with the first byte of its message, which starts a new write of
+        // the server; the reader gets it with the first read that reaches that write.
+        if !glue {
+            bounds.push(at);
+        }
+    }
+    bounds.retain(|b| *b > 0 && *b < total);
+    bounds.sort();
+    bounds.dedup();
+    bounds.push(total);
+
+    let mut panic: Option<String> = None;
+    let mut run = |w: &mut World| {
+        if panic.is_none() {
+            if let Err(p) = catch(|| w.settle()) {
+                panic = Some(format!("{p} at {}", vcommon::last_panic_location()));
+            }
+        }
+    };
+    run(&mut w);
+    let mut prev = 0;
+    for b in bounds {
+        if b == prev {
+            continue;
+        }
+        let fds = match sc.fd_at {
+            Some(at) if at >= prev && at < b => vec![bank.fd.try_clone().expect("dup")],
+            _ => vec![],
+        };
+        link.b2a.push(&sc.bytes[prev..b], fds);
+        prev = b;
+        run(&mut w);
+    }
+    let client_wrote = link.a2b.written();
+    let items_before_late = items.lock().unwrap().clone();
+    if !sc.late.is_empty() {
+        link.b2a.push(&sc.late, vec![]);
+        run(&mut w);
+    }
+    let conn = result.lock().unwrap().take();
+    let mut status = match &conn {
+        None => Status::Waiting,
+        Some(Ok(_)) => Status::Completed,
+        Some(Err(e)) => Status::Failed(e.clone()),
+    };
+    let mut cap = None;
+    let no_panic = panic.is_none();
+    if let (Some(Ok(conn)), true) = (&conn, no_panic) {
+        // fd capability: sending a message that carries an fd is refused with `Unsupported`
+        // exactly when fd passing was not agreed.
+        let conn = conn.clone();
+        let probe_fd = new_fd("c17-probe");
+        let r = catch(|| {
+            w.complete("fd-probe", async move {
+                let m = Message::signal("/p", "x.y.P", "Probe")
+                    .unwrap()
+                    .build(&(Fd::from(&probe_fd),))
+                    .unwrap();
+                match conn.send(&m).await {
+                    Ok(()) => Ok(true),
+                    Err(zbus::Error::Unsupported) => Ok(false),
+                    Err(e) => Err(e.to_string()),
+                }
+            })
+        });
+        match r {
+            Ok(Some(r)) => cap = Some(r),
+            Ok(None) => cap = Some(Err("send did not complete".into())),
+            Err(p) => panic = Some(format!("{p} at {}", vcommon::last_panic_location())),
+        }
+    }
+    if let Some(p) = panic {
+        status = Status::Panic(p);
+    }
+    let items_final = items.lock().unwrap().clone();
+    // Tear down without leaking (see c16::execute).
+    drop(conn);
+    root.cancel();
+    drop(root);
+    drop(w);
+    for ch in [&link.a2b, &link.b2a] {
+        let (a, b) = ch.with(|c| (c.read_waker.take(), c.write_waker.take()));
+        drop(a);
+        drop(b);
+    }
+    Obs {
+        status,
+        cap,
+        items_before_late,
+        items: items_final,
+        client_wrote,
+    }
+}
+
+fn show(bytes: &[u8]) -> String {
+    let mut s = String::new();
+    for b in bytes.iter().take(200) {
+        match b {
+            b'\r' => s.push_str("\\r"),
+            b'\n' => s.push_str("\\n"),
+            0 => s.push_str("\\0"),
+            0x20..=0x7e => s.push(*b as char),
+            _ => s.push_str(&format!("\\x{b:02x}")),
+        }
+    }
+    s
+}
+
+fn show_lines(lines: &[&[u8]]) -> String {
+    lines.iter().map(|l| format!("\"{}\"", show(l))).collect::<Vec<_>>().join(" ")
+}
+
+fn show_item(i: &Item, bank: &Bank) -> String {
+    match i {
+        Item::Err(e) => format!("Err({e})"),
+        Item::Msg { bytes, fds } => {
+            let name = if *bytes == bank.m1 {
+                "M1".to_string()
+            } else if *bytes == bank.m2 {
+                "M2".to_string()
+            } else if *bytes == bank.mfd {
+                "Mfd".to_string()
+            } else if *bytes == bank.hello_return {
+                "HelloReturn".to_string()
+            } else if *bytes == bank.signal_first {
+                "NameAcquired".to_string()
+            } else {
+                format!("msg[{} bytes]", bytes.len())
+            };
+            format!(
+                "{name}(fds:{})",
+                fds.iter()
+                    .map(|f| if *f == bank.fd_inode { "sent-fd" } else { "other-fd" })
+                    .collect::<Vec<_>>()
+                    .join(",")
+            )
+        }
+    }
+}
+
+/// Split the line region at CRLF as the protocol does.
+fn crlf_lines(region: &[u8]) -> (Vec<&[u8]>, &[u8]) {
+    let mut out = vec![];
+    let mut pos = 0;
+    while let Some(rel) = region[pos..].windows(2).position(|w| w == CRLF) {
+        out.push(&region[pos..pos + rel]);
+        pos += rel + 2;
+    }
+    (out, &region[pos..])
+}
+
+fn line_class(l: &ServerLine, raw: &[u8], expected: Option<&str>) -> String {
+    match l {
+        ServerLine::OkGuid(g) => match expected {
+            Some(e) if e != g => "ok-guid-differs-from-expected".into(),
+            _ => "ok-valid-guid".into(),
+        },
+        ServerLine::OkBad => {
+            let s = String::from_utf8_lossy(raw);
+            let arg = s.split(' ').filter(|w| !w.is_empty()).nth(1).unwrap_or("");
+            if arg.is_empty() {
+                "ok-without-guid".into()
+            } else if arg.contains('-') {
+                "ok-hyphenated-guid".into()
+            } else if s.split(' ').filter(|w| !w.is_empty()).count() > 2 {
+                "ok-guid-extra-arg".into()
+            } else {
+                "ok-malformed-guid".into()
+            }
+        }
+        ServerLine::Rejected => "rejected".into(),
+        ServerLine::Error => "error".into(),
+        ServerLine::Data => "data".into(),
+        ServerLine::AgreeUnixFd => "agree-unix-fd".into(),
+        ServerLine::Unknown => {
+            if raw.is_empty() {
+                "empty-line".into()
+            } else if raw.contains(&b'\n') || raw.contains(&b'\r') {
+                "line-with-stray-line-ending".into()
+            } else {
+                "unknown-line".into()
+            }
+        }
+    }
+}
+
+struct Judged {
+    violations: Vec<Violation>,
+    outcome: String,
+    state_key: u64,
+}
+
+fn judge(
+    cfg: &Cfg,
+    bank: &Bank,
+    lines: &[&[u8]],
+    mode: Mode,
+    trailing: Trailing,
+    obs: &Obs,
+    replay: &Value,
+) -> Judged {
+    let region: Vec<u8> = lines.concat();
+    let (contents, rest) = crlf_lines(&region);
+    let parsed: Vec<ServerLine> = contents.iter().map(|c| parse_server_line(c)).collect();
+    let (_nul, sent, _begin_at) = parse_client_stream(&obs.client_wrote);
+    let verdict = client_verdict(&sent, &parsed, cfg.expected_guid());
+    let negotiated = sent.contains(&ClientCmd::NegotiateUnixFd);
+    // classes of the lines that answer AUTH and NEGOTIATE_UNIX_FD
+    let auth_pos = sent.iter().position(|c| *c == ClientCmd::Auth);
+    let nego_pos = sent.iter().position(|c| *c == ClientCmd::NegotiateUnixFd);
+    let class_at = |p: Option<usize>| match p {
+        Some(p) => match parsed.get(p) {
+            Some(l) => line_class(l, contents[p], cfg.expected_guid()),
+            None => {
+                if p == parsed.len() && !rest.is_empty() {
+                    "unterminated-or-bare-lf-line".to_string()
+                } else {
+                    "none".to_string()
+                }
+            }
+        },
+        None => "not-sent".to_string(),
+    };
+    let auth_reply = class_at(auth_pos);
+    let nego_reply = class_at(nego_pos);
+    let first_line_class = match lines.first() {
+        Some(l) if *l == b"\n" => "bare-lf-empty-line",
+        Some(l) if !l.ends_with(CRLF) => "bare-lf-line",
+        Some(_) => "crlf-line",
+        None => "none",
+    };
+
+    let feats = |v: Violation| {
+        v.feat("expected_guid", format!("{:?}", cfg.expect).to_lowercase())
+            .feat("socket_fd_capable", cfg.fd)
+            .feat("mechanism", cfg.mech.name())
+            .feat("flavour", format!("{mode:?}"))
+            .feat("trailing", format!("{trailing:?}"))
+            .feat("auth_reply", &auth_reply)
+            .feat("negotiate_reply", &nego_reply)
+    };
+    let ctx = |what: &str| {
+        format!(
+            "expected-guid={:?} fd-socket={} mech={} {:?} trailing={:?}: server lines {} — {what}; client status {:?}, fd capability {:?}, stream yielded [{}]",
+            cfg.expect,
+            cfg.fd,
+            cfg.mech.name(),
+            mode,
+            trailing,
+            show_lines(lines),
+            obs.status,
+            obs.cap,
+            obs.items.iter().map(|i| show_item(i, bank)).collect::<Vec<_>>().join(", ")
+        )
+    };
+    let mut vs = vec![];
+
+    if let Status::Panic(p) = &obs.status {
+        vs.push(
+            feats(Violation::new(CL_PANIC, ctx(&format!("the client panicked: {p}")), replay.clone()))
+                .feat("first_line", first_line_class)
+                .feat("last_line", match lines.last() {
+                    Some(l) if *l == b"\n" => "bare-lf-empty-line",
+                    Some(l) if !l.ends_with(CRLF) => "bare-lf-line",
+                    Some(_) => "crlf-line",
+                    None => "none",
+                }),
+        );
+    }
+    let completed = obs.status == Status::Completed;
+    if completed && !verdict.may_complete {
+        vs.push(feats(Violation::new(
+            CL_ACCEPT,
+            ctx(&format!("the handshake completed although {}", verdict.why_not)),
+            replay.clone(),
+        )));
+    }
+    // A proper conversation has to succeed (otherwise everything above is vacuous).
+    let all_crlf = rest.is_empty();
+    let exact = all_crlf && parsed.len() == verdict.replies_expected;
+    let proper = verdict.may_complete
+        && exact
+        && (!negotiated || matches!(parsed.get(nego_pos.unwrap_or(usize::MAX)), Some(ServerLine::AgreeUnixFd | ServerLine::Error)))
+        && matches!(mode, Mode::P2p | Mode::BusReturn);
+    if proper && !completed && !matches!(obs.status, Status::Panic(_)) {
+        vs.push(feats(Violation::new(
+            CL_PROPER,
+            ctx("the server accepted properly (OK with the right GUID, a valid answer to NEGOTIATE_UNIX_FD, Hello answered) but the handshake did not complete"),
+            replay.clone(),
+        )));
+    }
+    if completed && verdict.may_complete {
+        match &obs.cap {
+            Some(Ok(cap)) => {
+                if *cap != verdict.fd_agreed {
+                    vs.push(
+                        feats(Violation::new(
+                            CL_FD,
+                            ctx(&format!(
+                                "fd passing is {} on the connection but the server {}",
+                                if *cap { "enabled" } else { "disabled" },
+                                if verdict.fd_agreed { "agreed to it" } else { "did not agree to it" }
+                            )),
+                            replay.clone(),
+                        ))
+                        .feat("capability", cap)
+                        .feat("server_agreed", verdict.fd_agreed),
+                    );
+                }
+            }
+            Some(Err(e)) => {
+                // The probe failed for another reason (e.g. the write side is gone): nothing the
+                // statement talks about; recorded in the outcome class only.
+                let _ = e;
+            }
+            None => {}
+        }
+    }
+    // Trailing bytes: checked when it is unambiguous which bytes follow the handshake lines.
+    let fd_in_trailing = matches!(trailing, Trailing::WithFd | Trailing::PlainThenFd);
+    if completed && verdict.may_complete && exact && matches!(mode, Mode::P2p | Mode::BusReturn) && (!fd_in_trailing || verdict.fd_agreed) {
+        let sc = script(bank, lines, mode, trailing);
+        let want: Vec<Item> = sc
+            .expect_items
+            .iter()
+            .map(|(b, fd)| Item::Msg {
+                bytes: b.clone(),
+                fds: if *fd { vec![bank.fd_inode] } else { vec![] },
+            })
+            .collect();
+        let before_ok = obs.items_before_late.len() >= sc.expect_before_late.min(want.len())
+            && obs.items_before_late[..] == want[..obs.items_before_late.len().min(want.len())]
+            && obs.items_before_late.len() <= want.len();
+        if obs.items != want || !before_ok {
+            let what = if obs.items.iter().any(|i| matches!(i, Item::Err(_))) {
+                "stream-error"
+            } else if obs.items.len() < want.len() {
+                "message-missing"
+            } else if obs.items.len() > want.len() {
+                "extra-message"
+            } else if obs.items.iter().zip(&want).any(|(a, b)| match (a, b) {
+                (Item::Msg { bytes: x, .. }, Item::Msg { bytes: y, .. }) => x != y,
+                _ => true,
+            }) {
+                "bytes-differ"
+            } else if obs.items == want {
+                "delivered-late"
+            } else {
+                "fds-differ"
+            };
+            vs.push(
+                feats(Violation::new(
+                    CL_TRAIL,
+                    ctx(&format!(
+                        "the bytes after the handshake lines are [{}] but the message stream did not start with exactly these (before the late bytes: [{}])",
+                        want.iter().map(|i| show_item(i, bank)).collect::<Vec<_>>().join(", "),
+                        obs.items_before_late.iter().map(|i| show_item(i, bank)).collect::<Vec<_>>().join(", "),
+                    )),
+                    replay.clone(),
+                ))
+                .feat("what", what),
+            );
+        }
+    }
+    let outcome = format!(
+        "{}/{}{}",
+        obs.status.class(),
+        auth_reply,
+        match &obs.cap {
+            Some(Ok(true)) => "/fd",
+            Some(Ok(false)) => "/nofd",
+            Some(Err(_)) => "/probe-error",
+            None => "",
+        }
+    );
+    let state_key = hash64(&(
+        verdict.may_complete,
+        verdict.fd_agreed,
+        parsed.len().min(verdict.replies_expected),
+        obs.status.class(),
+        &obs.cap,
+        obs.items.len(),
+        &auth_reply,
+        &nego_reply,
+    ));
+    Judged {
+        violations: vs,
+        outcome,
+        state_key,
+    }
+}
+
+fn payload(cfg: &Cfg, lines: &[&[u8]], mode: Mode, trailing: Trailing, delivery: &Delivery) -> Value {
+    json!({
+        "cfg": cfg.json(),
+        "lines": lines.iter().map(|l| String::from_utf8_lossy(l).into_owned()).collect::<Vec<_>>(),
+        "mode": format!("{mode:?}"),
+        "trailing": format!("{trailing:?}"),
+        "delivery": match delivery {
+            Delivery::Reactive => json!("reactive"),
+            Delivery::Cuts { cuts, glue_fd } => json!({"cuts": cuts, "glue_fd": glue_fd}),
+        },
+    })
+}
+
+/// Comparable result of an execution (for split independence).
+fn result_key(o: &Obs) -> (Status, Option<Result<bool, String>>, Vec<Item>, Vec<u8>) {
+    (o.status.clone(), o.cap.clone(), o.items.clone(), o.client_wrote.clone())
+}
+
+/// Cut positions used for 2-cut splits of streams that carry messages: everything in and right
+/// after the line region, and around every message's start, fixed header end and end.
+fn reduced_positions(sc: &Script) -> Vec<usize> {
+    let total = sc.bytes.len();
+    let mut p: BTreeSet<usize> = (1..=(sc.lines_len + 18).min(total.saturating_sub(1))).collect();
+    for (s, l) in &sc.msgs {
+        for q in [s + 1, s + 15, s + 16, s + 17, s + l - 1, s + l] {
+            p.insert(q);
+        }
+    }
+    p.into_iter().filter(|q| *q > 0 && *q < total).collect()
+}
+
+pub fn main(args: &Args) -> i32 {
+    if let Some(p) = &args.replay {
+        return replay(p);
+    }
+    let report = Report::new("C17", args.tier, args.seed, "model_checking");
+    let thorough = args.tier == vcommon::Tier::Thorough;
+    let alpha = alphabet(thorough);
+    let k = alpha.len();
+    let max_len = args.tier.pick(3usize, 4usize);
+    let bank = build_bank();
+
+    let mut cfgs = vec![];
+    for expect in [Expect::None, Expect::Equal, Expect::Different] {
+        for fd in [true, false] {
+            for mech in [Mech::External, Mech::Anonymous] {
+                cfgs.push(Cfg { expect, fd, mech });
+            }
+        }
+    }
+
+    let executions = std::sync::atomic::AtomicU64::new(0);
+    let lines_fed = std::sync::atomic::AtomicU64::new(0);
+    let split_runs = std::sync::atomic::AtomicU64::new(0);
+    let states: Mutex<BTreeSet<u64>> = Mutex::new(BTreeSet::new());
+    let per_depth: Mutex<BTreeMap<usize, (u64, u64)>> = Mutex::new(BTreeMap::new());
+    let tree_exhausted = std::sync::atomic::AtomicBool::new(true);
+    use std::sync::atomic::Ordering::Relaxed;
+
+    // ---- phase 1: the history tree per configuration (p2p, nothing trailing, line by line) ----
+    // node = (cfg index, symbols, status class of the base run)
+    let mut nodes: Vec<(usize, Vec<u8>, &'static str)> = vec![];
+    for (ci, cfg) in cfgs.iter().enumerate() {
+        let root = execute(cfg, &bank, &[], Mode::P2p, Trailing::None, &Delivery::Reactive);
+        if root.status != Status::Waiting {
+            // a client that does not wait for the server's answer at all
+            report.violation(
+                Violation::new(
+                    CL_ACCEPT,
+                    format!("client did not wait for any server line: {:?}", root.status),
+                    payload(cfg, &[], Mode::P2p, Trailing::None, &Delivery::Reactive),
+                )
+                .feat("auth_reply", "none"),
+            );
+        }
+        nodes.push((ci, vec![], root.status.class()));
+        let mut frontier: Vec<Vec<u8>> = if root.status == Status::Waiting { vec![vec![]] } else { vec![] };
+        for depth in 1..=max_len {
+            let n = frontier.len() * k;
+            let found: Mutex<Vec<(usize, Vec<u8>, &'static str)>> = Mutex::new(vec![]);
+            par_for(n, 4, |idx| {
+                let mut syms = frontier[idx / k].clone();
+                syms.push((idx % k) as u8);
+                let lines: Vec<&[u8]> = syms.iter().map(|s| alpha[*s as usize].0.as_slice()).collect();
+                let o = execute(cfg, &bank, &lines, Mode::P2p, Trailing::None, &Delivery::Reactive);
+                found.lock().unwrap().push((idx, syms, o.status.class()));
+            });
+            let mut f = found.into_inner().unwrap();
+            f.sort();
+            let mut pd = per_depth.lock().unwrap();
+            let e = pd.entry(depth).or_insert((0, 0));
+            e.0 += f.len() as u64;
+            frontier = vec![];
+            for (_, syms, class) in f {
+                if class == "waiting" {
+                    e.1 += 1;
+                    frontier.push(syms.clone());
+                }
+                nodes.push((ci, syms, class));
+            }
+            drop(pd);
+            if frontier.is_empty() {
+                break;
+            }
+            if depth == max_len {
+                tree_exhausted.store(false, Relaxed);
+            }
+        }
+    }
+
+    // ---- phase 2: every node x flavour x trailing, judged; plus read splits ----
+    let n_var = MODES.len() * TRAILINGS.len();
+    let jobs = nodes.len() * n_var;
+    par_for(jobs, 1, |job| {
+        let (ci, syms, base_class) = &nodes[job / n_var];
+        let cfg = &cfgs[*ci];
+        let mode = MODES[(job % n_var) / TRAILINGS.len()];
+        let trailing = TRAILINGS[job % TRAILINGS.len()];
+        let lines: Vec<&[u8]> = syms.iter().map(|s| alpha[*s as usize].0.as_slice()).collect();
+        let base_variant = mode == Mode::P2p && trailing == Trailing::None;
+
+        let o = execute(cfg, &bank, &lines, mode, trailing, &Delivery::Reactive);
+        executions.fetch_add(1, Relaxed);
+        lines_fed.fetch_add(lines.len() as u64, Relaxed);
+        report.eval(1);
+        let pl = payload(cfg, &lines, mode, trailing, &Delivery::Reactive);
+        let j = judge(cfg, &bank, &lines, mode, trailing, &o, &pl);
+        report.outcome(&j.outcome);
+        states.lock().unwrap().insert(j.state_key);
+        if o.client_wrote.len() > 1 && !lines.is_empty() {
+            report.nontrivial(hash64(&(cfg, syms, mode, trailing)));
+        }
+        if job % 211 == 0 {
+            report.sample(json!({
+                "cfg": cfg.json(), "mode": format!("{mode:?}"), "trailing": format!("{trailing:?}"),
+                "lines": lines.iter().map(|l| show(l)).collect::<Vec<_>>(),
+                "client_wrote": show(&o.client_wrote),
+                "status": format!("{:?}", o.status), "fd_capability": format!("{:?}", o.cap),
+                "stream": o.items.iter().map(|i| show_item(i, &bank)).collect::<Vec<_>>(),
+            }));
+        }
+        for v in j.violations {
+            report.violation(v);
+        }
+
+        // ---- read splits ----
+        // Streams that stop inside the handshake (failed / panicked in the base run) never read
+        // past the lines, so only their base variant is split.
+        let worth = base_variant || matches!(*base_class, "completed" | "waiting");
+        if !worth || syms.len() > 2 {
+            return;
+        }
+        let sc = script(&bank, &lines, mode, trailing);
+        let total = sc.bytes.len();
+        if total == 0 {
+            return;
+        }
+        let want = result_key(&o);
+        let check = |d: Delivery| {
+            let o2 = execute(cfg, &bank, &lines, mode, trailing, &d);
+            executions.fetch_add(1, Relaxed);
+            split_runs.fetch_add(1, Relaxed);
+            report.eval(1);
+            let got = result_key(&o2);
+            if got != want {
+                let kind = if matches!(o2.status, Status::Panic(_)) && !matches!(o.status, Status::Panic(_)) {
+                    "panic-only-when-split"
+                } else if o2.status.class() != o.status.class() {
+                    "different-status"
+                } else if o2.cap != o.cap {
+                    "different-fd-capability"
+                } else if o2.items != o.items {
+                    "different-stream-content"
+                } else {
+                    "different-client-output"
+                };
+                let pl2 = payload(cfg, &lines, mode, trailing, &d);
+                // Tell the judge about it too: a split run is an execution in its own right.
+                let j2 = judge(cfg, &bank, &lines, mode, trailing, &o2, &pl2);
+                for v in j2.violations {
+                    report.violation(v.feat("delivery", "split"));
+                }
+                report.violation(
+                    Violation::new(
+                        CL_SPLIT,
+                        format!(
+                            "expected-guid={:?} fd-socket={} mech={} {:?} trailing={:?}: server lines {} delivered line by line: {:?} cap {:?} stream [{}]; delivered as {:?}: {:?} cap {:?} stream [{}]",
+                            cfg.expect, cfg.fd, cfg.mech.name(), mode, trailing, show_lines(&lines),
+                            o.status, o.cap, o.items.iter().map(|i| show_item(i, &bank)).collect::<Vec<_>>().join(", "),
+                            d, o2.status, o2.cap, o2.items.iter().map(|i| show_item(i, &bank)).collect::<Vec<_>>().join(", "),
+                        ),
+                        pl2,
+                    )
+                    .feat("kind", kind)
+                    .feat("flavour", format!("{mode:?}"))
+                    .feat("trailing", format!("{trailing:?}"))
+                    .feat("line_by_line", o.status.class())
+                    .feat("split", o2.status.class()),
+                );
+            }
+        };
+        // everything in one read (a descriptor then arrives together with earlier bytes; only
+        // faithful when a single read takes the whole stream, i.e. in the handshake's 1 KiB reads)
+        if total < 1024 && mode == Mode::P2p {
+            check(Delivery::Cuts { cuts: vec![], glue_fd: true });
+        }
+        check(Delivery::Cuts { cuts: vec![], glue_fd: false });
+        // byte at a time over the line region (+ a little), the rest in one piece
+        check(Delivery::Cuts { cuts: (1..(sc.lines_len + 20).min(total)).collect(), glue_fd: false });
+        // all 1-cut splits
+        for c in 1..total {
+            check(Delivery::Cuts { cuts: vec![c], glue_fd: false });
+        }
+        // 2-cut splits: all of them when the stream is only lines, else over the reduced positions
+        let pos: Vec<usize> = if base_variant || thorough { (1..total).collect() } else { reduced_positions(&sc) };
+        for (i, a) in pos.iter().enumerate() {
+            for b in &pos[i + 1..] {
+                check(Delivery::Cuts { cuts: vec![*a, *b], glue_fd: false });
+            }
+        }
+    });
+
+    report.set("states", json!(states.lock().unwrap().len().max(1)));
+    report.set("transitions", json!(lines_fed.load(Relaxed).max(1)));
+    report.set("traces_validated_against_impl", json!(executions.load(Relaxed)));
+    report.set("split_executions", json!(split_runs.load(Relaxed)));
+    report.set("tree_nodes", json!(nodes.len()));
+    report.set("tree_exhausted_within_depth_bound", json!(tree_exhausted.load(Relaxed)));
+    report.set(
+        "states_meaning",
+        json!("distinct (monitor verdict, handshake lines consumed, client status, fd capability, stream length, reply classes) tuples; informational, no merging is done"),
+    );
+    report.set("alphabet", json!(alpha.iter().map(|(l, _)| show(l)).collect::<Vec<_>>()));
+    report.set("max_transcript_length", json!(max_len));
+    report.set(
+        "tree_nodes_per_depth",
+        json!(per_depth
+            .lock()
+            .unwrap()
+            .iter()
+            .map(|(d, (n, live))| json!({"depth": d, "transcripts": n, "still_waiting": live}))
+            .collect::<Vec<_>>()),
+    );
+    if !tree_exhausted.load(Relaxed) {
+        report.note("some transcripts of maximal length still wait for input; the depth bound cut the tree");
+    }
+    report.assume("a descriptor travels with the first byte of its message and that byte starts a new write of the server; a read never returns bytes of two writes unless it returns the first completely (scripted socket chunks)");
+    report.assume("the wire monitor (refsasl::client_verdict) pairs every client command except BEGIN with one server line, in order, as the D-Bus specification does");
+    report.assume("fd capability is observed through Connection::send of an fd-carrying message (Error::Unsupported iff not enabled)");
+    report.assume("FLATPAK_ID is not set (the non-pipelined flatpak path of the client is not exercised)");
+    report.finish(
+        "history tree of server lines (extended only below prefixes on which the client still waits) x expected GUID {none, equal, different} \
+         x fd-capable socket x mechanism x flavour {p2p, bus: Hello return / error / signal first} x trailing {none, one message, 1.5 messages, \
+         message with fd, plain message then fd message}; every case delivered line by line; cases of <= 2 lines additionally in one read, \
+         byte-wise over the line region, with every 1-cut and with 2-cuts (all for line-only streams, otherwise over line region + message \
+         boundaries/header ends; all positions in the thorough tier). non-trivial = the client sent something and at least one server line was delivered",
+        true,
+    )
+}
+
+fn replay(path: &str) -> i32 {
+    let art = vcommon::load_replay(path);
+    let rp = &art["replay"];
+    let cfg = Cfg::from_json(&rp["cfg"]);
+    let bank = build_bank();
+    let lines_owned: Vec<Vec<u8>> = rp["lines"]
+        .as_array()
+        .map(|a| a.iter().map(|l| l.as_str().unwrap_or("").as_bytes().to_vec()).collect())
+        .unwrap_or_default();
+    let lines: Vec<&[u8]> = lines_owned.iter().map(|l| l.as_slice()).collect();
+    let mode = mode_from(rp["mode"].as_str().unwrap_or("P2p"));
+    let trailing = trailing_from(rp["trailing"].as_str().unwrap_or("None"));
+    let delivery = match &rp["delivery"] {
+        Value::Object(o) => Delivery::Cuts {
+            cuts: o["cuts"]
+                .as_array()
+                .map(|a| a.iter().map(|c| c.as_u64().unwrap_or(1) as usize).collect())
+                .unwrap_or_default(),
+            glue_fd: o["glue_fd"].as_bool().unwrap_or(false),
+        },
+        _ => Delivery::Reactive,
+    };
+    println!(
+        "C17 replay: cfg={} mode={mode:?} trailing={trailing:?} delivery={delivery:?} clause={}",
+        cfg.json(),
+        art["clause"]
+    );
+    println!("  server lines: {}", show_lines(&lines));
+    let base = execute(&cfg, &bank, &lines, mode, trailing, &Delivery::Reactive);
+    let print = |tag: &str, o: &Obs| {
+        println!(
+            "  [{tag}] client wrote \"{}\"; status {:?}; fd capability {:?}; stream before late bytes [{}], finally [{}]",
+            show(&o.client_wrote),
+            o.status,
+            o.cap,
+            o.items_before_late.iter().map(|i| show_item(i, &bank)).collect::<Vec<_>>().join(", "),
+            o.items.iter().map(|i| show_item(i, &bank)).collect::<Vec<_>>().join(", ")
+        );
+    };
+    print("line by line", &base);
+    let mut bad = false;
+    let pl = payload(&cfg, &lines, mode, trailing, &delivery);
+    let o = if matches!(delivery, Delivery::Reactive) {
+        base.clone()
+    } else {
+        let o2 = execute(&cfg, &bank, &lines, mode, trailing, &delivery);
+        print("as recorded", &o2);
+        if result_key(&o2) != result_key(&base) {
+            println!("  violation: clause={CL_SPLIT}");
+            bad = true;
+        }
+        o2
+    };
+    let j = judge(&cfg, &bank, &lines, mode, trailing, &o, &pl);
+    for v in &j.violations {
+        println!("  violation: clause={} features={:?}", v.clause, v.features);
+        bad = true;
+    }
+    println!("C17 replay: {}", if bad { "REPRODUCED" } else { "not reproduced" });
+    if bad {
+        1
+    } else {
+        0
+    }
 }
